@@ -36,7 +36,8 @@ pub struct Batch {
   pub phantom_kb: bool,         // keyboard readiness reported although nothing is queued
   pub phantom_tab: bool,
   pub spurious: u8,             // time-outs reported before this arrival although no deadline passed
-  pub interrupt: bool           // one EINTR before this arrival
+  pub interrupt: bool,          // one EINTR before this arrival
+  pub extra_interrupts: u8      // further EINTRs right after it, with no device event in between (the loop then backs off with thread::sleep, which runs on the virtual clock)
 }
 
 #[derive(Clone, Debug)]
@@ -65,7 +66,7 @@ pub struct World {
   cur_batch: Option<usize>,    // batch being drained (for trickle)
   trickle_done: bool,
   spurious_left: u8,
-  interrupt_done: bool,
+  interrupts_done: u8,
   kq: VecDeque<KItem>,
   tq: VecDeque<TItem>,
   k_ready: bool,
@@ -116,7 +117,7 @@ impl World {
     for b in &sched.batches { t += b.delay_ns; arrivals.push(t); }
     let (sp, _) = match sched.batches.first() { Some(b) => (b.spurious, b.interrupt), None => (0, false) };
     World {
-      sched, arrivals, next_batch: 0, cur_batch: None, trickle_done: false, spurious_left: sp, interrupt_done: false,
+      sched, arrivals, next_batch: 0, cur_batch: None, trickle_done: false, spurious_left: sp, interrupts_done: 0,
       kq: VecDeque::new(), tq: VecDeque::new(), k_ready: false, t_ready: false, tablet_first: false,
       log: Vec::new(), calls: 0, fault_at, faulted: false, calls_after_fault: 0, lateness_ns,
       idle_timeouts: 0, real_clock, real_t0: vclock::real_now_ns(), runaway: false, timeouts_seen: 0, stall: None
@@ -197,9 +198,9 @@ impl ScriptedDriver for World {
       let i = self.next_batch;
       let t_arr = self.arrivals[i];
       let deadline_first = match timeout_ns { Some(d) => t + d <= t_arr, None => false };
-      if self.sched.batches[i].interrupt && !self.interrupt_done {
+      if self.sched.batches[i].interrupt && self.interrupts_done < 1 + self.sched.batches[i].extra_interrupts {
         // the signal hits the first wait after the previous arrival, whatever its time-out
-        self.interrupt_done = true;
+        self.interrupts_done += 1;
         let limit = match timeout_ns { Some(d) => std::cmp::min(t + d / 2, t_arr), None => t_arr };
         if limit > t { self.wait_until(t + (limit - t) / 2); }
         result = PollRes::Interrupted;
@@ -229,7 +230,7 @@ impl ScriptedDriver for World {
         self.cur_batch = Some(i);
         self.trickle_done = false;
         self.next_batch += 1;
-        self.interrupt_done = false;
+        self.interrupts_done = 0;
         self.spurious_left = if self.next_batch < self.sched.batches.len() { self.sched.batches[self.next_batch].spurious } else { 0 };
         let mut v = vec![];
         if self.tablet_first { if self.t_ready { v.push(ScriptedDevice::Tablet); } if self.k_ready { v.push(ScriptedDevice::Keyboard); } }
@@ -620,7 +621,7 @@ pub fn schedule_json(s: &Schedule) -> Value {
   Value::Array(s.batches.iter().map(|b| json!({
     "delay_ns": b.delay_ns, "kb": b.kb.iter().map(kitem_json).collect::<Vec<_>>(), "tab": b.tab.iter().map(titem_json).collect::<Vec<_>>(),
     "tablet_first": b.tablet_first, "trickle": b.trickle.iter().map(kitem_json).collect::<Vec<_>>(),
-    "phantom_kb": b.phantom_kb, "phantom_tab": b.phantom_tab, "spurious": b.spurious, "interrupt": b.interrupt
+    "phantom_kb": b.phantom_kb, "phantom_tab": b.phantom_tab, "spurious": b.spurious, "interrupt": b.interrupt, "extra_interrupts": b.extra_interrupts
   })).collect())
 }
 
@@ -637,7 +638,8 @@ pub fn schedule_parse(v: &Value) -> Option<Schedule> {
       phantom_kb: b.get("phantom_kb").and_then(|x| x.as_bool()).unwrap_or(false),
       phantom_tab: b.get("phantom_tab").and_then(|x| x.as_bool()).unwrap_or(false),
       spurious: b.get("spurious").and_then(|x| x.as_u64()).unwrap_or(0) as u8,
-      interrupt: b.get("interrupt").and_then(|x| x.as_bool()).unwrap_or(false)
+      interrupt: b.get("interrupt").and_then(|x| x.as_bool()).unwrap_or(false),
+      extra_interrupts: b.get("extra_interrupts").and_then(|x| x.as_u64()).unwrap_or(0) as u8
     });
   }
   Some(Schedule { batches })
@@ -748,12 +750,13 @@ pub fn gen_schedule(rng: &mut Rng, hist: &[Event], p: &SchedParams) -> Schedule 
     batches.push(Batch {
       delay_ns: gen_delay(rng, p), kb, tab, tablet_first: rng.chance(1, 2), trickle,
       phantom_kb: p.oddities && rng.chance(1, 20), phantom_tab: p.oddities && p.tablet > 0 && rng.chance(1, 30),
-      spurious: if p.oddities && rng.chance(1, 10) { rng.range(1, 2) as u8 } else { 0 }, interrupt
+      spurious: if p.oddities && rng.chance(1, 10) { rng.range(1, 2) as u8 } else { 0 }, interrupt,
+      extra_interrupts: if interrupt && rng.chance(1, 3) { rng.range(1, 3) as u8 } else { 0 }
     });
   }
   // end of device
   let mut end_batch = Batch { delay_ns: gen_delay(rng, p), kb: vec![KItem::End], tab: vec![], tablet_first: false, trickle: vec![],
-    phantom_kb: false, phantom_tab: false, spurious: 0, interrupt: false };
+    phantom_kb: false, phantom_tab: false, spurious: 0, interrupt: false, extra_interrupts: 0 };
   if p.end_anywhere && !batches.is_empty() {
     match rng.below(6) {
       0 => {
@@ -779,6 +782,7 @@ pub fn gen_schedule(rng: &mut Rng, hist: &[Event], p: &SchedParams) -> Schedule 
   for j in 1..batches.len() {
     let prev_empty = batches[j - 1].kb.is_empty() && batches[j - 1].tab.is_empty() && !batches[j - 1].phantom_kb && !batches[j - 1].phantom_tab;
     if prev_empty || batches[j - 1].interrupt { batches[j].interrupt = false; }
+    if !batches[j].interrupt { batches[j].extra_interrupts = 0; }
   }
   if let Some(b) = batches.first_mut() { b.interrupt = false; }
   Schedule { batches }
@@ -806,10 +810,10 @@ fn split_schedule(hist: &[Event], cuts: &[bool]) -> Schedule {
   for (i, e) in hist.iter().enumerate() {
     cur.push(KItem::Ev(e.clone()));
     if i + 1 == hist.len() || cuts[i] {
-      batches.push(Batch { delay_ns: 0, kb: std::mem::take(&mut cur), tab: vec![], tablet_first: false, trickle: vec![], phantom_kb: false, phantom_tab: false, spurious: 0, interrupt: false });
+      batches.push(Batch { delay_ns: 0, kb: std::mem::take(&mut cur), tab: vec![], tablet_first: false, trickle: vec![], phantom_kb: false, phantom_tab: false, spurious: 0, interrupt: false, extra_interrupts: 0 });
     }
   }
-  batches.push(Batch { delay_ns: 0, kb: vec![KItem::End], tab: vec![], tablet_first: false, trickle: vec![], phantom_kb: false, phantom_tab: false, spurious: 0, interrupt: false });
+  batches.push(Batch { delay_ns: 0, kb: vec![KItem::End], tab: vec![], tablet_first: false, trickle: vec![], phantom_kb: false, phantom_tab: false, spurious: 0, interrupt: false, extra_interrupts: 0 });
   Schedule { batches }
 }
 
@@ -939,6 +943,7 @@ pub fn run(opts: &Opts) -> i32 {
       let rr = run_case_stall(&case.layout, &sched, None, lateness, false, stall);
       if stall.is_some() { out.count("schedules_with_a_stall"); }
       out.count("schedules");
+      if sched.batches.iter().any(|b| b.extra_interrupts > 0) { out.count("schedules_with_consecutive_interruptions"); }
       out.add("driver_calls", rr.calls as u64);
       if let Some(p) = &rr.panicked {
         out.violation(Violation { property: prop.clone(), clause: "panic".to_string(), signature: format!("{}:loop-panicked", prop),
@@ -1025,10 +1030,15 @@ pub fn run(opts: &Opts) -> i32 {
     }
   }
 
+  // the same loop on the real driver (epoll, the evdev readers, the uinput writer) over pipes
+  if prop == "C10" || prop == "C12" || prop == "C20" {
+    crate::realdrv_mon::phase(&mut out, opts, &mut rng, &cases);
+  }
   // a few runs on the real clock: the interposed clock must not hide another time source
   if prop == "C11" && opts.shard < 4 {
     real_clock_runs(&mut out, &mut rng);
   }
+  out.add("backoff_sleeps_on_the_virtual_clock", vclock::sleeps().saturating_sub(1));
   out.write(opts);
   if out.n_violations() > 0 { 1 } else { 0 }
 }
@@ -1040,7 +1050,7 @@ fn real_clock_runs(out: &mut ShardOut, rng: &mut Rng) {
   let interval = 8 + rng.below(8) as i32;
   let layout = Layout { mappings: vec![ Mapping { from: vec![B], to: vec![B], repeat: Repeat::Special { keys: vec![F21], delay_ms: delay, interval_ms: interval }, absorbing: vec![] } ] };
   let gap = (delay + 5 * interval + 3) as u64 * MS;
-  let mk = |kb: Vec<KItem>, d: u64| Batch { delay_ns: d, kb, tab: vec![], tablet_first: false, trickle: vec![], phantom_kb: false, phantom_tab: false, spurious: 0, interrupt: false };
+  let mk = |kb: Vec<KItem>, d: u64| Batch { delay_ns: d, kb, tab: vec![], tablet_first: false, trickle: vec![], phantom_kb: false, phantom_tab: false, spurious: 0, interrupt: false, extra_interrupts: 0 };
   let sched = Schedule { batches: vec![ mk(vec![KItem::Ev(Pressed(B))], 2 * MS), mk(vec![KItem::Ev(Released(B))], gap), mk(vec![KItem::End], MS) ] };
   let rr = run_case(&layout, &sched, None, 0, true);
   out.count("real_clock_runs");
